@@ -677,9 +677,12 @@ func (g *gen) genCryptoOnly() cfgCase {
 			}
 			return n
 		}
-		s := "set ikev1 transform-set " + pick()
+		first := pick()
+		s := "set ikev1 transform-set " + first
 		if r.Chance(20) {
-			s += " " + pick()
+			if second := pick(); second != first { // a name occurs once in the list
+				s += " " + second
+			}
 		}
 		return s
 	}
